@@ -200,9 +200,9 @@ Proof.
 Qed.
 
 (* ---- the number token of a hex-typed value in either mode ---- *)
-Lemma format_hex_wf : forall hex n, u32_ok n -> tok_wf KNumber (format_hex hex n).
+Lemma format_hex_wf : forall up hex n, u32_ok n -> tok_wf up KNumber (format_hex hex n).
 Proof.
-  intros hex n Hn. destruct hex.
+  intros up hex n Hn. destruct hex.
   - right. apply format_hex_true_spec; exact Hn.
   - left. apply format_uint_plain.
 Qed.
@@ -238,7 +238,7 @@ Proof.
   reflexivity.
 Qed.
 
-Lemma mux_word_m : forall n, wf_word KMux (ch_m :: format_uint n) = true.
+Lemma mux_word_m : forall n, wf_word no_ud KMux (ch_m :: format_uint n) = true.
 Proof.
   intros n. destruct (format_uint_spec n) as [Hne [Hdig _]]. cbn [wf_word]. change (is_letter ch_m) with true.
   rewrite (digits_alnum _ Hdig). cbn [andb]. unfold classify_text. change (ch_m =? ch_m) with true.
@@ -246,7 +246,7 @@ Proof.
   destruct (format_uint n) as [|d r]; [congruence|]. reflexivity.
 Qed.
 
-Lemma mux_word_mM : forall n, wf_word KMux (ch_m :: format_uint n ++ [ch_M]) = true.
+Lemma mux_word_mM : forall n, wf_word no_ud KMux (ch_m :: format_uint n ++ [ch_M]) = true.
 Proof.
   intros n. destruct (format_uint_spec n) as [Hne [Hdig _]]. cbn [wf_word]. change (is_letter ch_m) with true.
   rewrite forallb_app, (digits_alnum _ Hdig). change (forallb (is_alnum no_ud) [ch_M]) with true. cbn [andb].
